@@ -4,7 +4,8 @@ import SpecterModel.C41.Model
 C41 line-protocol driver.
 
   snap <cached> <cdir> <dir> => <state>,<dir>                      rows of the CURRENT source's snapshot function
-  leaf <ps> <pd> <cached> <cdir> <dir> <rc> => reload=…,…,err=…    rows of the CURRENT source's decision tree
+  leaf <ps> <pd> <cached> <cdir> <dir> <rc> <rcdir> => reload=…,…,err=…   rows of the CURRENT source's decision tree
+      (rc/rcdir = does the re-load find an entry / the direction of that entry)
       (printed by `extract c41-lines` from overlay/reuse.go as it is now; compared with the compiled-in Gen table)
   sched <dual 0|1> <preP> <preQ> <step,step,…> => P=<entry>;Q=<entry>;closed=<conns>;Pc=<r>;Qc=<r>;Qd=<r>;Pd=<r>
       one maximal interleaving, executed by the harness' simulator over the CURRENT rows.
@@ -109,13 +110,13 @@ def drvStep (_ : Unit) (toks : List String) (rhs : String) : Unit × Verdict :=
       let m := (match r.1 with | .cached => "cached" | .fresh => "fresh") ++ "," ++ dirLong r.2
       if m = rhs then ((), .ok) else ((), .diff m)
     | _, _, _ => ((), .bad "snap args")
-  | ["leaf", ps, pd, c, cd, d, rc] =>
+  | ["leaf", ps, pd, c, cd, d, rc, rcd] =>
     let ps := if ps = "cached" then some CState.cached else if ps = "fresh" then some CState.fresh else none
-    match ps, parseDirLong pd, parseBool c, parseDirLong cd, parseDirLong d, parseBool rc with
-    | some ps, some pd, some c, some cd, some d, some rc =>
-      let m := actStr (Gen.C41.decide ps pd c cd d rc)
+    match ps, parseDirLong pd, parseBool c, parseDirLong cd, parseDirLong d, parseBool rc, parseDirLong rcd with
+    | some ps, some pd, some c, some cd, some d, some rc, some rcd =>
+      let m := actStr (Gen.C41.decide ps pd c cd d rc rcd)
       if m = rhs then ((), .ok) else ((), .diff m)
-    | _, _, _, _, _, _ => ((), .bad "leaf args")
+    | _, _, _, _, _, _, _ => ((), .bad "leaf args")
   | ["sched", dual, pp, pq, steps] =>
     match parseEntry pp, parseEntry pq, (steps.splitOn ",").mapM parseStep with
     | some pp, some pq, some l =>
